@@ -13,7 +13,7 @@ BOOL_VARS = ["flag", "ok"]
 LIST_VARS = ["xs", "ys"]
 STR_VARS = ["s", "t"]
 OPT_VARS = ["opt"]
-REC_VARS = ["r"]
+REC_VARS = ["r", "q"]
 DICT_VARS = ["d"]
 LOOP_VARS = ["v", "w", "i", "j", "m", "e"]
 HELPERS = ["inv", "first", "clamp", "pick"]
@@ -36,6 +36,19 @@ class Rec:
 
     def __hash__(self):
         return hash(self._tag)
+
+    # ordered by size; the answer is 0 / 1, not False / True
+    def __lt__(self, other):
+        return int(self.size < other.size) if isinstance(other, Rec) else NotImplemented
+
+    def __le__(self, other):
+        return int(self.size <= other.size) if isinstance(other, Rec) else NotImplemented
+
+    def __gt__(self, other):
+        return int(self.size > other.size) if isinstance(other, Rec) else NotImplemented
+
+    def __ge__(self, other):
+        return int(self.size >= other.size) if isinstance(other, Rec) else NotImplemented
 
 
 def inv(n):
@@ -171,8 +184,16 @@ class G:
             (1, lambda: ["cmp", ["attr", self.rec_(d - 1), "child"], [[r.choice(["is", "is not"]), ["const", None]]]]),
             (1, lambda: ["cmp", ["const", r.choice(["a", "b", "zz"])], [["in", self.name("d")]]]),
             (1, lambda: ["if", self.bool_(d - 1), self.bool_(d - 1), self.bool_(d - 1)]),
+            # records compare by size and answer 0 / 1: a chain stops on a falsy answer that is not False
+            (2, lambda: ["cmp", self.rec_(0), [[r.choice(["<", "<=", ">", ">="]), self.rec2_()],
+                                               [r.choice(["<", "<=", ">"]), self.pick([(2, lambda: ["attr", self.rec2_(), "child"]),
+                                                                                       (1, lambda: ["call", ["name", "first"], [["attr", self.rec_(0), "items"]], []]),
+                                                                                       (1, lambda: self.rec_(0))])()]]]),
         ]
         return self.pick(opts)()
+
+    def rec2_(self):
+        return self.name(self.rng.choice(REC_VARS))
 
     def truthy(self, d):
         return self.pick([(5, lambda: self.bool_(d)), (2, lambda: self.list_(d)), (2, lambda: self.int_(d)),
@@ -329,9 +350,9 @@ def rand_value(r, name):
         return r.choice([None, None, 0, 4])
     if name == "d":
         return {"d": [[k, r.choice(ints)] for k in r.sample(["a", "b", "c"], r.randint(0, 3))]}
-    if name == "r":
+    if name in ("r", "q"):
         child = r.choice([None, {"rec": 2, "f": [["size", r.choice(ints)], ["items", []], ["name", "kid"], ["child", None]]}])
-        return {"rec": 1, "f": [["size", r.choice(ints)], ["items", [r.choice(ints) for _ in range(r.randint(0, 3))]],
+        return {"rec": 1 if name == "r" else 3, "f": [["size", r.choice(ints)], ["items", [r.choice(ints) for _ in range(r.randint(0, 3))]],
                                 ["name", r.choice(["", "top"])], ["child", child]]}
     if name in ("tmp", "acc"):
         return r.choice(ints)
@@ -389,6 +410,10 @@ def make_case(r, tree, env, layout=0, nesting=0, description=None, placement=Non
             "closure": [[n, env[n]] for n in closure],
             "globals": [[n, env[n]] for n in globs] + [[h, {"fn": h}] for h in HELPERS],
             "layout": layout, "nesting": nesting, "description": description}
+    known = set(INT_VARS + BOOL_VARS + LIST_VARS + STR_VARS + OPT_VARS + REC_VARS + DICT_VARS)
+    if closure and all(n in known for n in closure) and r.random() < 0.35:
+        # the same contract was violated before, while the enclosing scope held other values
+        case["warmup_closure"] = [[n, rand_value(r, n)] for n in closure]
     if kw_order:
         order = list(func_params)
         r.shuffle(order)
@@ -494,6 +519,10 @@ def directed():
         # speculative evaluation inside a comprehension (the documented limitation, D12b)
         ("spec-elt", ["bool", "and", [call("all", gen_v(["cmp", ["bin", "//", K(10), N("n")], [[">", N("v")]]], N("xs"))), N("flag")]],
          {"xs": [], "n": 0, "flag": False}, {}),
+        # a chain whose first comparison answers 0 (falsy, not False): Python stops there
+        ("chain-falsy-not-False", ["cmp", N("r"), [["<", N("q")], ["<", ["call", N("first"), [["attr", N("q"), "items"]], []]]]],
+         {"r": {"rec": 1, "f": [["size", 5], ["items", []], ["name", ""], ["child", None]]},
+          "q": {"rec": 3, "f": [["size", 2], ["items", []], ["name", ""], ["child", None]]}}, {}),
         # conditional and assignment expressions, f-strings, displays, slices
         ("named", ["cmp", ["named", "tmp", ["bin", "+", N("x"), K(1)]], [[">", ["bin", "*", N("tmp"), K(2)]]]], {"x": 3}, {}),
         ("fstring", ["cmp", ["fstr", [["lit", "n="], ["fmt", N("x"), ""], ["fmt", N("s"), "r"]]], [["==", K("zz")]]], {"x": 3, "s": "a"}, {}),
